@@ -5,7 +5,20 @@ the source; Props/C19.lean proves the property about it with the percentage form
 exactly (CL.pct). The float evaluation in CPython is tied by correspondence on every profile
 explored; at exact ties of the formula (the exact value of p/t*100 - 0.001 is an integer) a
 double may land on either side, so there the real result may exceed the exact one by 1: such
-profiles are compared component-wise with that tolerance and counted in the evidence."""
+profiles are compared component-wise with that tolerance and counted in the evidence.
+
+Besides the profile stream (percentages for a GIVEN profile, renderings once per distinct result), three
+streams go through real `Report(Codebase)` objects, the true profile being recomputed from the function
+lengths that were added (independently of codelimit):
+ * histories    : create the report (empty, or read back from a written document), then interleave queries
+                  (quality_profile, quality_profile_percentage, SummaryTable, text and Markdown summary) with
+                  `codebase.add_file` - every query must describe the code base AS IT IS at that moment; the
+                  lists returned by a query are modified by the caller in between (STATE PROBE);
+ * size ladder  : 10^2 .. 10^5 (thorough 10^6) functions, up to 10^4 files;
+ * console widths: the text and Markdown summaries on consoles 22 .. 300 (thorough: every width up to 130,
+                  and 1000) columns wide: the percentages SHOWN (the `N%` tokens above the verdict sentence) are
+                  read from the console output and must satisfy the property against the true shares;
+ * configuration: a share of the histories runs with Configuration.repository / exclude / verbose set."""
 import io
 import os
 import sys
@@ -14,6 +27,7 @@ from fractions import Fraction
 sys.path.insert(0, os.path.dirname(os.path.dirname(os.path.abspath(__file__))))
 sys.path.insert(0, os.path.join(os.path.dirname(os.path.dirname(os.path.dirname(os.path.abspath(__file__)))), "translator"))
 import common
+import h4_support as h4
 from props import C02
 
 ID = "C19"
@@ -21,7 +35,9 @@ TRUSTED = C02.TRUSTED[:1] + [
     "correspondence harness harness/props/C19.py; rich console output capture",
     "modelled, not verified: IEEE-754 evaluation of ceil((p / t) * 100 - 0.001): the theorems read it exactly; agreement is checked on every explored profile (exhaustive for small totals, adversarial near-ties, random large), with a +1 tolerance at exact ties",
 ]
-ASSUMPTIONS = ["profiles are four non-negative Python ints with total below 10^12 (decision margin 1/(1000 t) far above double rounding error)"]
+ASSUMPTIONS = ["profiles are four non-negative Python ints with total below 10^12 (decision margin 1/(1000 t) far above double rounding error)",
+               "the console is at least 22 columns wide: below that rich truncates the three percentage cells themselves in the unchanged tree (`0% 0% 100%` loses its last cell at 21 columns, `100% 0% 0%` at 20); counted as an observation (`narrow_consoles`)"]
+MIN_WIDTH = 22
 
 regen = C02.regen
 
@@ -53,18 +69,35 @@ def real_qpp(p):
 def real_qpp_render(p):
     from codelimit.common.Codebase import Codebase
     from codelimit.common.report.Report import Report
+    rep = Report(Codebase("/r"))
+    rep.quality_profile = lambda: list(p)
+    r = render_report(rep)
+    return r["reply"], r["shown"]
+
+
+_PCT = __import__("re").compile(r"(?<![\w.])-?\d+(?:\.\d+)?\s?%")
+_VERDICT = __import__("re").compile(r"(-?\d+)% of (?:the functions|lines of code) are")
+
+
+def render_report(rep, width=300, soft_wrap=False):
+    """everything the summary of a real Report object shows: the percentages function, the SummaryTable cells and
+    styles, and the console output of both formats on a console of the given width.
+    -> {"reply": line in the model driver's format, "shown": table cells, "console": {"text": [N% tokens above the
+    verdict], "markdown": [...]}, "raw": {...}}"""
     from codelimit.common.report import format_markdown, format_text
     from codelimit.common.SummaryTable import SummaryTable
     from rich.console import Console
-    rep = Report(Codebase("/r"))
-    rep.quality_profile = lambda: list(p)
     e, v, h, u = rep.quality_profile_percentage()
     outs = []
-    for mod in (format_text, format_markdown):
+    console_tokens, raw = {}, {}
+    for name, mod in (("text", format_text), ("markdown", format_markdown)):
         buf = io.StringIO()
-        con = Console(file=buf, width=300, emoji=False, highlight=False)
+        con = Console(file=buf, width=width, emoji=False, highlight=False, soft_wrap=soft_wrap)
         mod.print_summary(con, rep)
         txt = " ".join(buf.getvalue().split())
+        raw[name] = buf.getvalue()
+        mv = _VERDICT.search(txt)
+        console_tokens[name] = [t.replace(" ", "") for t in _PCT.findall(txt[:mv.start()] if mv else txt)]
         if "unmaintainable, refactoring necessary" in txt:
             code = 0
         elif "hard to maintain, refactoring necessary" in txt:
@@ -73,9 +106,7 @@ def real_qpp_render(p):
             code = 2
         else:
             code = -1
-        import re
-        m = re.search(r"(-?\d+)% of (?:the functions|lines of code) are", txt)
-        outs.append((code, int(m.group(1)) if m else -999))
+        outs.append((code, int(mv.group(1)) if mv else -999))
     st = SummaryTable(rep)
     cells = [c for col in st.columns for c in col._cells]
     styles = [str(c.style) for c in cells]
@@ -83,7 +114,8 @@ def real_qpp_render(p):
     orange = 1 if styles[1] == "dark_orange" else 0
     green = 1 if styles[0] == "green" else 0
     shown = [c.plain for c in cells]
-    return "ok %d %d %d %d %d %d %d %d %d %d %d" % (e, v, h, u, outs[0][0], outs[0][1], outs[1][0], outs[1][1], red, orange, green), shown
+    return {"reply": "ok %d %d %d %d %d %d %d %d %d %d %d" % (e, v, h, u, outs[0][0], outs[0][1], outs[1][0], outs[1][1], red, orange, green),
+            "shown": shown, "console": console_tokens, "raw": raw}
 
 
 def is_tie(p):
@@ -121,6 +153,246 @@ def oracle(p, reply, shown):
     if shown != ["%d%%" % ev, "%d%%" % h, "%d%%" % u]:
         bad.append("summary table shows %s" % shown)
     return bad
+
+
+# ------------------------------------------------------------------ real Report objects over real code bases
+
+def cat(v):
+    return 0 if v <= 15 else 1 if v <= 30 else 2 if v <= 60 else 3
+
+
+def true_profile(lengths):
+    p = [0, 0, 0, 0]
+    for v in lengths:
+        p[cat(v)] += v
+    return tuple(p)
+
+
+def shown_triple_bad(p, triple, where):
+    """the property's clauses about three SHOWN numbers (easy-or-verbose, hard-to-maintain, unmaintainable) against the
+    true profile p; `triple` is what was read from the output (list of strings)"""
+    bad = []
+    import re
+    if len(triple) != 3 or not all(re.fullmatch(r"-?\d+%", t) for t in triple):
+        return ["%s shows %s, required exactly three integer percentages" % (where, triple)]
+    ev, h, u = (int(t[:-1]) for t in triple)
+    t = sum(p)
+    if not (0 <= ev <= 100 and 0 <= h <= 100 and 0 <= u <= 100 and ev + h + u == 100):
+        bad.append("%s shows %s: range/sum" % (where, triple))
+    if t > 0:
+        for name, share, x in (("easy/verbose", p[0] + p[1], ev), ("hard", p[2], h), ("unmaintainable", p[3], u)):
+            if abs(100 * share - x * t) > 2 * t:
+                bad.append("%s shows %s %d%%, true share %.4f%%" % (where, name, x, 100 * share / t))
+        if 100000 * p[2] > t and h == 0:
+            bad.append("%s: hard-to-maintain share %.6f%% shows as 0" % (where, 100 * p[2] / t))
+        if 100000 * p[3] > t and u == 0:
+            bad.append("%s: unmaintainable share %.6f%% shows as 0" % (where, 100 * p[3] / t))
+    return bad
+
+
+def oracle_observation(p, obs, width):
+    """everything one query of a real report shows, against the true profile"""
+    bad = oracle(p, obs["reply"], obs["shown"])
+    ws = obs["reply"].split()
+    h, u = int(ws[3]), int(ws[4])
+    if width >= MIN_WIDTH:
+        for fmt in ("text", "markdown"):
+            bad += shown_triple_bad(p, obs["console"][fmt], "%s summary on a console %d columns wide" % (fmt, width))
+            toks = obs["console"][fmt]
+            if len(toks) == 3 and toks[1:] != ["%d%%" % h, "%d%%" % u]:
+                bad.append("%s summary shows %s but the verdict is derived from hard=%d unmaintainable=%d" % (fmt, toks, h, u))
+    return bad
+
+
+def gen_length(rnd):
+    r = rnd.random()
+    if r < 0.45:
+        return rnd.choice([1, 14, 15, 16, 17, 29, 30, 31, 32, 59, 60, 61, 62])
+    if r < 0.9:
+        return rnd.randint(1, 120)
+    return rnd.choice([0, 200, 1000, 10 ** 5, 10 ** 6])
+
+
+def gen_lengths(rnd, n):
+    """n function lengths; a style per call so that single-category and near-threshold code bases are frequent"""
+    style = rnd.random()
+    if style < 0.2:
+        pool = rnd.choice([[1, 5, 15], [16, 30, 20], [31, 60], [61, 100], [15, 16], [30, 31], [60, 61], [16, 61], [1, 16]])
+        return [rnd.choice(pool) for _ in range(n)]
+    if style < 0.35:     # mostly small with a rare long one: tiny positive shares
+        return [rnd.choice([31, 61, 1000]) if rnd.random() < 0.01 else rnd.randint(1, 15) for _ in range(n)]
+    return [gen_length(rnd) for _ in range(n)]
+
+
+class History:
+    """a real Report over a real Codebase, plus the function lengths added so far (the oracle's side)"""
+
+    def __init__(self, rnd, start_lengths=None, via_reader=False):
+        from codelimit.common.Codebase import Codebase
+        from codelimit.common.report.Report import Report
+        self.rnd = rnd
+        self.lengths = []
+        self.nfiles = 0
+        self.log = []
+        if via_reader:
+            from codelimit.common.report.ReportReader import ReportReader
+            from codelimit.common.report.ReportWriter import ReportWriter
+            tmp = Report(Codebase("/r"))
+            self.rep = tmp
+            self.add(start_lengths or [])
+            tmp.codebase.aggregate()
+            self.rep = ReportReader.from_json(ReportWriter(tmp).to_json())
+            self.log = [["read back a written report with functions of lengths", list(start_lengths or [])]]
+        else:
+            self.rep = Report(Codebase("/r"))
+            self.log = [["Report(Codebase('/r'))"]]
+            if start_lengths:
+                self.add(start_lengths)
+
+    def add(self, lengths):
+        from codelimit.common.Location import Location
+        from codelimit.common.Measurement import Measurement
+        from codelimit.common.SourceFileEntry import SourceFileEntry
+        self.nfiles += 1
+        ms, line = [], 1
+        for i, v in enumerate(lengths):
+            ms.append(Measurement("f%d" % i, Location(line, 1), Location(line + v, 1), v))
+            line += v + 1
+        self.rep.codebase.add_file(SourceFileEntry("d%d/f%d.py" % (self.nfiles % 7, self.nfiles), "00", "Python", sum(lengths), ms))
+        self.lengths += list(lengths)
+        self.log.append(["add_file", list(lengths) if len(lengths) <= 12 else "%d functions" % len(lengths)])
+
+    def query(self, width=300):
+        # STATE PROBE: whatever a query hands out may be modified by the caller
+        qp = self.rep.quality_profile()
+        if isinstance(qp, list):
+            for i in range(len(qp)):
+                qp[i] = 10 ** 9 + i
+        obs = render_report(self.rep, width)
+        self.log.append(["summary", width])
+        return true_profile(self.lengths), obs
+
+
+def replay_history(steps):
+    """steps = [["add_file", [lengths]] | ["summary", width] | ["reader", [lengths]]] -> list of failures"""
+    import random
+    first = steps[0] if steps else ["new"]
+    h = History(random.Random(0), start_lengths=first[1] if first[0] == "reader" else None, via_reader=first[0] == "reader")
+    bad = []
+    for st in steps[1:] if first[0] in ("reader", "new") else steps:
+        if st[0] == "add_file":
+            h.add(st[1])
+        elif st[0] == "summary":
+            p, obs = h.query(st[1])
+            bad += oracle_observation(p, obs, st[1])
+    return bad
+
+
+WIDTHS_QUICK = [22, 24, 30, 40, 50, 57, 58, 60, 80, 100, 120, 200, 300]
+
+
+def widths(ctx):
+    return ctx.pick(WIDTHS_QUICK, sorted(set(list(range(MIN_WIDTH, 131)) + [160, 200, 250, 300, 1000])))
+
+
+def run_object_streams(ctx, dis, fails, dist):
+    """histories, size ladder, console widths, configuration variants - on real Report objects"""
+    checks = []     # (true profile, observation, input for the replay)
+    W = widths(ctx)
+
+    def note(hist, p, obs, width, stream):
+        steps = [list(s) for s in hist.steps]
+        checks.append((p, obs, {"stream": stream, "steps": steps, "width": width}))
+
+    # ---- histories
+    rnd = ctx.rng("histories")
+    n_hist = ctx.pick(400, 6000)
+    for k in range(n_hist):
+        via_reader = rnd.random() < 0.25
+        start = gen_lengths(rnd, rnd.choice([0, 1, 3])) if (via_reader or rnd.random() < 0.5) else None
+        cfg = h4.config_variants(["d1/f1.py", "d2/f2.py"], rnd)[k % 5][1] if k % 4 == 3 else {}
+        with h4.configured(**cfg):
+            h = History(rnd, start_lengths=start, via_reader=via_reader)
+            h.steps = [["reader", list(start or [])]] if via_reader else [["new"]] + ([["add_file", list(start)]] if start else [])
+            for _ in range(rnd.randint(2, 7)):
+                if rnd.random() < 0.55:
+                    w = rnd.choice(W) if rnd.random() < 0.5 else 300
+                    p, obs = h.query(w)
+                    h.steps.append(["summary", w])
+                    note(h, p, obs, w, "history" + ("-configured" if cfg else ""))
+                else:
+                    ls = gen_lengths(rnd, rnd.choice([1, 1, 2, 3, 8]))
+                    h.add(ls)
+                    h.steps.append(["add_file", ls])
+            p, obs = h.query(300)
+            h.steps.append(["summary", 300])
+            note(h, p, obs, 300, "history" + ("-configured" if cfg else ""))
+        dist["histories"] = dist.get("histories", 0) + 1
+    # ---- size ladder: functions in the code base (spread over 1 .. 10^4 files), queried before, between and after
+    rnd = ctx.rng("ladder")
+    for n in ctx.pick([10 ** 2, 10 ** 3, 10 ** 4, 10 ** 5], [10 ** 2, 10 ** 3, 10 ** 4, 10 ** 5, 10 ** 6]):
+        for nfiles in sorted({1, min(n, 100), min(n // 10, 10 ** 4)}):
+            h = History(rnd)
+            h.steps = [["new"]]
+            ls = gen_lengths(rnd, n)
+            p, obs = h.query(300)
+            h.steps.append(["summary", 300])
+            note(h, p, obs, 300, "ladder")
+            per = max(1, n // nfiles)
+            for i in range(0, n, per):
+                h.add(ls[i:i + per])
+                h.steps.append(["add_file", ls[i:i + per]])
+                if i == (nfiles // 2) * per:
+                    p, obs = h.query(120)
+                    h.steps.append(["summary", 120])
+                    if n <= 10 ** 3:
+                        note(h, p, obs, 120, "ladder")
+            p, obs = h.query(300)
+            h.steps.append(["summary", 300])
+            if n <= 10 ** 3:
+                note(h, p, obs, 300, "ladder")
+            else:
+                checks.append((p, obs, {"stream": "ladder", "steps": "%d functions in %d files" % (n, nfiles), "width": 300, "profile": list(p)}))
+            dist["ladder_%d" % n] = dist.get("ladder_%d" % n, 0) + 1
+    # ---- console widths: a set of code bases x every width x both formats
+    rnd = ctx.rng("widths")
+    bases = [[1], [16], [1, 16], [31], [61], [31, 61], [15, 16, 31, 61], [100] * 3 + [1], [1] * 99 + [61], [16] * 49 + [31] * 50 + [61],
+             [30, 30, 30, 31], [16, 20, 30, 45], [10] * 20 + [20] * 3 + [40]]
+    bases += [gen_lengths(rnd, rnd.choice([2, 5, 20, 100])) for _ in range(ctx.pick(30, 120))]
+    for ls in bases:
+        h = History(rnd)
+        h.steps = [["new"]]
+        if ls:
+            h.add(ls)
+            h.steps.append(["add_file", ls])
+        for w in W:
+            p, obs = h.query(w)
+            checks.append((p, obs, {"stream": "widths", "steps": h.steps + [["summary", w]], "width": w}))
+        dist["width_bases"] = dist.get("width_bases", 0) + 1
+        # observation only: consoles narrower than MIN_WIDTH
+        for w in (8, 12, 16, 20, 21):
+            _p, obs = h.query(w)
+            ok = len(obs["console"]["text"]) == 3
+            d = dist.setdefault("narrow_consoles", {})
+            d["%d: %s" % (w, "three percentages" if ok else "cells truncated")] = d.get("%d: %s" % (w, "three percentages" if ok else "cells truncated"), 0) + 1
+    dist["console_widths"] = list(W) if len(W) < 20 else "%d widths %d..%d" % (len(W), W[0], W[-1])
+    # ---- compare
+    model = common.run_driver_sharded(["qpp %d %d %d %d" % p for p, _, _ in checks])
+    nontrivial = set()
+    for (p, obs, inp), m in zip(checks, model):
+        i = obs["reply"]
+        dist[inp["stream"]] = dist.get(inp["stream"], 0) + 1
+        if m != i and not (is_tie(p) and tie_ok(m, i)):
+            dis.append({"stream": "report-object/" + inp["stream"], "input": inp, "model": m, "impl": i})
+        bad = oracle_observation(p, obs, inp["width"])
+        if bad:
+            fails.append({"input": inp, "observed": {"reply": i, "table": obs["shown"], "console": obs["console"], "true_profile": list(p)},
+                          "required": bad[:4]})
+        if p[2] + p[3] > 0:
+            nontrivial.add((p, inp["width"]))
+    if not h4.configuration_is_default():
+        dis.append({"stream": "configured", "input": {"stream": "configured"}, "model": "default configuration restored", "impl": "configuration left modified"})
+    return len(checks), nontrivial
 
 
 def profiles(ctx):
@@ -182,9 +454,15 @@ def correspond(ctx):
             dist["verdicts"][ws[5]] = dist["verdicts"].get(ws[5], 0) + 1
         if int(ws[3]) + int(ws[4]) > 0:
             nontrivial.add(p)
+    n_obj, nt_obj = run_object_streams(ctx, dis, fails, dist)
+    fails.sort(key=lambda f: len(str(f["input"])))
     return {
-        "evaluations": len(ps), "distinct_nontrivial": len(nontrivial),
-        "rule": rule + "; non-trivial = distinct profiles with a positive hard-to-maintain or unmaintainable percentage",
+        "evaluations": len(ps) + n_obj, "distinct_nontrivial": len(nontrivial) + len(nt_obj),
+        "rule": rule + "; real Report(Codebase) objects with the true profile recomputed from the added function lengths: histories of add_file / summary "
+                       "queries (a quarter starting from a report read back from its document, a quarter under Configuration.repository/exclude/verbose; "
+                       "lists handed out by a query overwritten by the caller), a ladder of 10^2..10^5 (thorough 10^6) functions in 1..10^4 files queried "
+                       "before / between / after, and the text + Markdown summaries read back from consoles of every width in `widths` (>= 22 columns)"
+                       "; non-trivial = distinct profiles with a positive hard-to-maintain or unmaintainable percentage",
         "samples": [{"profile": p, "model": m} for p, m in list(zip(ps, model))[-4:]] + [{"profile": (0, 0, 31, 62), "impl": real_qpp((0, 0, 31, 62))[0]}],
         "exhaustive": True, "distribution": dist,
         "disagreements": dis[:50], "oracle_failures": fails[:50],
@@ -221,7 +499,19 @@ def search(ctx, hints):
     return fails[:10]
 
 
+def _steps_ok(inp):
+    return isinstance(inp.get("steps"), list)
+
+
 def replay(payload):
+    inp = payload["input"]
+    if "steps" in inp:
+        if not _steps_ok(inp):
+            print("summary of a large history only (%s)" % inp["steps"])
+            return True
+        bad = replay_history(inp["steps"])
+        print("history %s -> %s" % (str(inp["steps"])[:1500], bad or "ok"))
+        return not bad
     p = tuple(payload["input"]["profile"])
     i, shown = real_qpp(p)
     bad = oracle(p, i, shown)
